@@ -149,7 +149,8 @@ Proof. exact (unregister_no_panic r ds). Qed.
 Theorem c17_no_panic_default_registry : forall s, default_registry_init_o default_features_process_registration <> OutPanic s.
 Proof. exact default_registry_init_no_panic. Qed.
 Theorem c17_err_iff_new_custom prefix labels :
-  (exists e, new_custom_o prefix labels = OutErr e) <-> ~ (prefix_ok prefix /\ Forall valid_label (common_names labels)).
+  (exists e, new_custom_o prefix labels = OutErr e) <->
+  ~ (prefix_ok prefix /\ Forall valid_label (common_names labels) /\ ~ In reserved_le (common_names labels)).
 Proof. exact (new_custom_err_iff prefix labels). Qed.
 Theorem c17_err_iff_register {C} (r : regcore C) ds c :
   (exists e, register_o r ds c = OutErr e) <-> ~ (hash_fine r ds /\ nlookup (collector_id ds) (r_collectors r) = None).
